@@ -1,7 +1,20 @@
-/- Driver glue for C05: case lines `c05.<sub> <args…> | <impl…>` (stub until the property is built) -/
+/-
+  Driver glue for C05.
+    c05.gated <std|lowmem> <cap> <nreaders> <script…> | <blocks…>     (same format as c04.pool)
+-/
 import FileD.Prelude.Tok
+import FileD.Drv.PoolTrace
+import FileD.Spec.C05
 namespace FileD.DrvC05
+open FileD
 
-def handle (_cmd : String) (_args _impl : List String) : Option (String × String) := none
+def handleGated (args impl : List String) : Option (String × String) := do
+  let (m, bs, _, cap) ← Drv.PoolTrace.run args impl
+  if m = "bad-impl" then pure (m, "bad-impl") else
+  pure (m, if SpecC05.holds cap bs then "ok" else "fail")
+
+def handle (cmd : String) (args impl : List String) : Option (String × String) :=
+  if cmd = "c05.gated" then handleGated args impl
+  else none
 
 end FileD.DrvC05
